@@ -9,7 +9,15 @@ TRUST = ("Trusted: go/types, x/tools go/ssa v0.29.0 and the VTA call graph; effe
 
 # id -> (claimed, technique, level text, level note, design ref)
 P = {
- "C01": (False, "", "", "", "§3 C01"),
+ "C01": (True,
+         "enum-dispatch simulation + structural strategy signatures + option-threading def-use on SSA (custom analyzer)",
+         "Decides that the merge policy selected is the policy executed: every configHandling constant an option or tag can install has an explicit "
+         "case in the array dispatcher and the four policy classes reach distinct strategies; each strategy has the source-order signature of its "
+         "policy (which array is appended in which order, fresh node keeping the dictionary vs in place, index-wise setAt bounded by both lengths "
+         "then source tail); the dictionary loop stores merge(dest[k],src[k]) under k and clears only under replace after the emptiness return; "
+         "mergeValues recurses only when both sides are sub-configs; nested merges receive the caller's options. Value-level laws are not decided.",
+         TRUST + "A re-implementation of a strategy that no longer goes through fields.append/setAt is reported as undecided, not as a violation.",
+         "§3 C01"),
  "C02": (False, "", "", "", "§3 C02"),
  "C03": (False, "", "", "", "§3 C03"),
  "C04": (False, "", "", "", "§3 C04"),
@@ -23,7 +31,14 @@ P = {
  "C13": (False, "", "", "", "§3 C13"),
  "C14": (False, "", "", "", "§3 C14"),
  "C15": (False, "", "", "", "§3 C15"),
- "C16": (False, "", "", "", "§3 C16"),
+ "C16": (True,
+         "sibling agreement of option pairs + CFG path rule on the child-options function (custom analyzer)",
+         "Decides that XValues/FieldXValues install the same constant, that the constant reaches options.configValueHandling resp. the handling table, "
+         "that every acyclic (feasible) path of fieldOptsOverride which returns the incoming options unchanged under a non-nil tree has established "
+         "tree == child or an array hop, and that the handling looked up is that of the key/index being merged. Necessary for 'exactly the named "
+         "subtree'; the merged values and wildcard semantics in full are not decided.",
+         TRUST,
+         "§3 C16"),
  "C17": (False, "", "", "", "§3 C17"),
  "C18": (True,
          "sibling-shape comparison on SSA + def-use plumbing of source metadata (custom analyzer)",
